@@ -27,6 +27,12 @@ pub struct AlphaCfg {
     pub pairs: bool,
     pub seal_actions: Vec<Option<ProposerAction>>,
     pub max_txs_per_block: usize,
+    /// restrict pool requests to these pools (None = every known pool)
+    pub only_pools: Option<Vec<PoolKey>>,
+    /// offer a jump to this height from sealed states below it
+    pub jump_to: Option<u64>,
+    /// emit every withdrawal request twice (different additional data, hence different transaction hashes and settlement orders)
+    pub request_variants: bool,
 }
 
 impl AlphaCfg {
@@ -50,6 +56,9 @@ impl AlphaCfg {
             pairs: true,
             seal_actions: vec![None, Some(ProposerAction { fee_multiplier_delta: 0, reward_dest: addr_true() })],
             max_txs_per_block: 2,
+            only_pools: None,
+            jump_to: None,
+            request_variants: false,
         }
     }
 }
@@ -250,7 +259,10 @@ fn pool_alphabet(n: &Node, cfg: &AlphaCfg) -> Vec<(String, Transaction, bool)> {
     if !(cfg.swaps || cfg.deposits || cfg.withdrawals || cfg.other_kinds_with_pool_data) {
         return out;
     }
-    let pools = known_pools(m);
+    let mut pools = known_pools(m);
+    if let Some(only) = &cfg.only_pools {
+        pools.retain(|k| only.contains(k));
+    }
     for k in &pools {
         let pname = format!("{}/{}", dn(k.left()), dn(k.right()));
         let spellings: Vec<(&'static str, Vec<u8>)> = if cfg.pool_spellings { pool_spellings(*k) } else { vec![("canonical", k.to_bytes().to_vec())] };
@@ -317,17 +329,26 @@ fn pool_alphabet(n: &Node, cfg: &AlphaCfg) -> Vec<(String, Transaction, bool)> {
             }
         }
         if cfg.withdrawals {
-            for c in coins_of(m, k.liq_token_denom(), 2) {
-                let (ins, carrier_out) = match spend_base(m, &c) {
-                    Some(x) => x,
-                    None => continue,
-                };
+            for (wi, c) in coins_of(m, k.liq_token_denom(), 3).into_iter().enumerate() {
+                // every withdrawal request gets its own MEL carrier (pool number and coin number pick it), so that several fit in one block
+                let carriers = coins_of(m, Denom::Mel, 12);
+                if carriers.is_empty() {
+                    continue;
+                }
+                let pool_no = pools.iter().position(|p| p == k).unwrap_or(0);
+                let carrier = &carriers[(carriers.len() - 1).saturating_sub((pool_no * 3 + wi) % carriers.len())];
+                let (ins, carrier_out) = (vec![c.0, carrier.0], Vec::<CoinData>::new());
                 // a withdrawal request has exactly one output, so the MEL carrier cannot be returned: pay it as fee... not possible in general; use a MEL-free shape only when the carrier is tiny
                 let _ = carrier_out;
                 let v = c.1.coin_data.value.0;
                 // the only valid shape: inputs [liq coin, mel coin], outputs [liq value], fee = mel value
                 let fee = ins.get(1).and_then(|id| m.coins.get(id)).map(|c| c.coin_data.value.0).unwrap_or(0);
                 out.push((format!("withdraw[{}]({})", pname, short(&c.0)), tx_t(TxKind::LiqWithdraw, ins.clone(), vec![out_t(v, k.liq_token_denom())], fee, k.to_bytes().to_vec()), true));
+                if cfg.request_variants {
+                    let mut o = out_t(v, k.liq_token_denom());
+                    o.additional_data = vec![1].into();
+                    out.push((format!("withdraw'[{}]({})", pname, short(&c.0)), tx_t(TxKind::LiqWithdraw, ins.clone(), vec![o], fee, k.to_bytes().to_vec()), true));
+                }
             }
         }
     }
@@ -347,7 +368,13 @@ pub fn dn(d: Denom) -> String {
 /// The full action alphabet of a node.
 pub fn actions(n: &Node, cfg: &AlphaCfg) -> Vec<Action> {
     if !n.is_open() {
-        return vec![Action::Open];
+        let mut v = vec![Action::Open];
+        if let Some(j) = cfg.jump_to {
+            if n.model.height < j {
+                v.push(Action::Jump(j));
+            }
+        }
+        return v;
     }
     let mut v = vec![];
     let in_block = n.model.block_txs.len();
